@@ -103,14 +103,29 @@ def gen_api(seed, tier):
         for npar in range(1, 5):
             ops = [L(2, how, npar, start, rng.randint(1, 50)) for start in range(4)]
             cases.append(Case("aapi", "a%d" % i, ops)); i += 1
+    for kind in range(5):
+        cases.append(Case("aapi", "e%d" % i, [L(4, kind, 1, rng.randint(0, 99)), L(4, kind, 0, rng.randint(0, 99)), L(4, kind, 1, 5)])); i += 1
+    for th in (1, 2, 3):
+        cases.append(Case("aapi", "p%d" % i, [L(5, th, rng.randint(0, 99)) for _ in range(2)])); i += 1
+    cases.append(Case("aapi", "d%d" % i, [L(3, d) for d in (0, 1, 7, 100)])); i += 1
     for _ in range(10 if tier == "quick" else 100):
         ops = []
         for _ in range(rng.randint(2, 8)):
-            if rng.random() < 0.5: ops.append(L(1, rng.randint(0, 4), rng.randint(0, 2), rng.randint(-50, 300)))
+            r0 = rng.random()
+            if r0 < 0.15: ops.append(L(4, rng.randint(0, 4), rng.randint(0, 1), rng.randint(0, 99)))
+            elif r0 < 0.2: ops.append(L(3, rng.randint(0, 300)))
+            elif r0 < 0.6: ops.append(L(1, rng.randint(0, 4), rng.randint(0, 2), rng.randint(-50, 300)))
             else: ops.append(L(2, rng.randint(0, 2), rng.randint(1, 4), rng.randint(0, 3), rng.randint(-9, 99)))
         if rng.random() < 0.2: ops.insert(rng.randrange(len(ops) + 1), rng.choice([L(1, 7, 0, 0), L(2, 0, 5, 0, 1), L(3), L(2, 3, 1, 0, 1)]))
         cases.append(Case("aapi", "r%d" % i, ops)); i += 1
     return cases
+
+
+def gen_deep(seed, tier):
+    """co_await chains far deeper than any native stack allows (no sanitizers, -O2): the depth is unbounded in the property"""
+    rng = random.Random(seed * 313 + 4)
+    depths = [1000, 50000, 300000] if tier == "quick" else [1000, 50000, 300000, 600000, 1000000]
+    return [Case("aapi", "deep%d" % i, [L(3, d + rng.randint(0, 9))]) for i, d in enumerate(depths)]
 
 
 def nontrivial(case, model_obs):
@@ -137,4 +152,5 @@ def signature(case, impl_obs, model_obs):
 
 
 PARTS = [{"name": "vm", "harness": "vm.cpp", "gen": gen, "timeout_case": 10},
-         {"name": "api", "harness": "seq_async.cpp", "gen": gen_api, "timeout_case": 10}]
+         {"name": "api", "harness": "seq_async.cpp", "gen": gen_api, "timeout_case": 10},
+         {"name": "deep", "harness": "seq_async_deep.cpp", "gen": gen_deep, "timeout_case": 20, "flags": "-O2 -g", "no_shrink": True}]
